@@ -71,6 +71,22 @@ Theorem C04_check_reports_unreadable_record : forall x s t e,
 Proof. exact check_att_refused. Qed.
 Print Assumptions C04_check_reports_unreadable_record.
 
+(* The high-water mark is persisted before the signature is produced: when the database refuses the
+   write the call releases nothing and the records stay as they were. *)
+Theorem C04_attestation_refused_when_write_refused : forall x s t e,
+  wfail e = true ->
+  (forall g, o_out (snd (step x (OSignAtt s t e))) <> Released g) /\
+  st (fst (step x (OSignAtt s t e))) = st x.
+Proof. exact write_refused_sign_att. Qed.
+Print Assumptions C04_attestation_refused_when_write_refused.
+
+Theorem C04_block_refused_when_write_refused : forall x sl e,
+  wfail e = true ->
+  (forall g, o_out (snd (step x (OSignBlk sl e))) <> Released g) /\
+  st (fst (step x (OSignBlk sl e))) = st x.
+Proof. exact write_refused_sign_blk. Qed.
+Print Assumptions C04_block_refused_when_write_refused.
+
 (* A record damaged in the database (undecodable or zero-length value): the next sign call for that
    kind of object must refuse.  Full statement: *)
 Definition C04_damaged_record_refuses_statement := damaged_record_refuses_statement.
@@ -134,18 +150,18 @@ Proof. exact source_lt_target_is_needed. Qed.
 Print Assumptions C04_source_lt_target_is_needed_refuted.
 
 (* Non-vacuity: a history inside the quantifier with restart, a crash between persist and release,
-   a crash inside AddShare, remove + re-add, reactivation and an unreadable record; four
-   signatures are released. *)
+   a crash inside AddShare, remove + re-add, reactivation, a refused database write and an unreadable
+   record; five signatures are released. *)
 Example C04_example :
   wfb_gen true true 160 example_history = true /\
   damage_is_detectable (cfg0 false false) example_history /\
   released (snd (run (init (cfg0 false false) 160 400000) example_history)) =
-    [SAtt 4 6; SBlk 192; SAtt 6 8; SBlk 256] /\
+    [SAtt 4 6; SBlk 192; SAtt 6 8; SBlk 256; SAtt 7 9] /\
   map o_out (snd (run (init (cfg0 false false) 160 400000) example_history)) =
     [ Done; Refused ESlashable; Done; Released (SAtt 4 6); Released (SBlk 192); Done;
       Refused ESlashable; Done; Crashed; Refused ESlashable; Done; Refused ENoAccount;
       Crashed; Done; Refused ESlashable; Done; Released (SAtt 6 8); Refused ESlashable;
-      Released (SBlk 256); Done; Done; Refused EReadErr ].
+      Released (SBlk 256); Done; Done; Refused EWriteErr; Released (SAtt 7 9); Done; Refused EReadErr ].
 Proof.
   split; [vm_compute; reflexivity|]. split.
   - unfold damage_is_detectable. vm_compute. intros H.
